@@ -49,7 +49,7 @@ def correspondence(ctx):
     cases = []
     for i in range(ctx.n(80, 4000)):
         g, tth, chi, wedge = draw(ctx.rng, i)
-        c, _ = gens.cell(ctx.rng)
+        c, _ = gens.cell(ctx.rng, scaled=True)
         h = gens.hkl(ctx.rng, 6)
         lam = ctx.rng.uniform(0.1, 0.5)
         for mn, m in _mods():
@@ -198,7 +198,7 @@ def oracle(ctx, hints=()):
         sample = sample or {'g': g.tolist(), 'tth': tth, 'chi': chi, 'wedge': wedge}
         if chi and wedge:
             nontriv += 1
-        c, _ = gens.cell(ctx.rng)
+        c, _ = gens.cell(ctx.rng, scaled=True)
         h = gens.hkl(ctx.rng, 6)
         U, _ = gens.rotation(ctx.rng, 'uniform')
         for mn, m in _mods():
